@@ -2275,13 +2275,18 @@ impl Server {
             }
             Some(RequestType::RemoveListener(ref remove)) => {
                 debug!("{} remove {:?} listener {:?}", req_id, remove.proxy, remove);
-                // We only remove a listener that was previously added, so the
-                // base count is at least 1 — the subtraction cannot underflow.
-                debug_assert!(
-                    self.base_sessions_count > 0,
-                    "removing a listener with base_sessions_count == 0 would underflow"
-                );
-                self.base_sessions_count -= 1;
+                // A listener owns one slab entry (its listen token) and one unit
+                // of `base_sessions_count` from Add*Listener until it is removed
+                // here. Look the tokens up before the proxy forgets the listener:
+                // an unknown address removes nothing and must not touch the count.
+                let address: std::net::SocketAddr = remove.address.into();
+                let listen_tokens = match ListenerType::try_from(remove.proxy) {
+                    Ok(ListenerType::Http) => self.http.borrow().listener_tokens(&address),
+                    Ok(ListenerType::Https) => self.https.borrow().listener_tokens(&address),
+                    Ok(ListenerType::Tcp) => self.tcp.borrow().listener_tokens(&address),
+                    Ok(ListenerType::Udp) => self.udp.borrow().listener_tokens(&address),
+                    Err(_) => Vec::new(),
+                };
                 let response = match ListenerType::try_from(remove.proxy) {
                     Ok(ListenerType::Http) => self.http.borrow_mut().notify(request),
                     Ok(ListenerType::Https) => self.https.borrow_mut().notify(request),
@@ -2289,6 +2294,19 @@ impl Server {
                     Ok(ListenerType::Udp) => self.udp.borrow_mut().notify(request),
                     Err(_) => WorkerResponse::error(req_id, "Wrong variant ListenerType"),
                 };
+                for token in listen_tokens {
+                    if self.sessions.borrow_mut().slab.try_remove(token.0).is_some() {
+                        info!("removed listen token {:?}", token);
+                    }
+                    // the slot may be reused by a session from now on: a pending
+                    // accept readiness must not be replayed against it
+                    self.accept_ready.remove(&ListenToken(token.0));
+                    debug_assert!(
+                        self.base_sessions_count > 0,
+                        "removing a listener with base_sessions_count == 0 would underflow"
+                    );
+                    self.base_sessions_count -= 1;
+                }
                 push_queue(response);
             }
             Some(RequestType::ActivateListener(ref activate)) => {
@@ -2745,13 +2763,14 @@ impl Server {
                 // gate was closed must not be replayed against this token later.
                 self.accept_ready.remove(&ListenToken(token.0));
 
-                {
-                    let mut sessions = self.sessions.borrow_mut();
-                    if sessions.slab.contains(token.0) {
-                        sessions.slab.remove(token.0);
-                        info!("removed listen token {:?}", token);
-                    }
-                }
+                // The listener still exists in the proxy and keeps its token:
+                // its slab entry stays reserved until RemoveListener, so that the
+                // token cannot be handed to a session or to another listener and
+                // a later ActivateListener finds its `ListenSession` again.
+                debug_assert!(
+                    self.sessions.borrow().slab.contains(token.0),
+                    "a deactivated listener keeps its slab entry"
+                );
 
                 if deactivate.to_scm {
                     self.unblock_scm_socket();
@@ -2795,10 +2814,10 @@ impl Server {
                 // The socket is gone: a readiness remembered while the accept
                 // gate was closed must not be replayed against this token later.
                 self.accept_ready.remove(&ListenToken(token.0));
-                if self.sessions.borrow().slab.contains(token.0) {
-                    self.sessions.borrow_mut().slab.remove(token.0);
-                    info!("removed listen token {:?}", token);
-                }
+                debug_assert!(
+                    self.sessions.borrow().slab.contains(token.0),
+                    "a deactivated listener keeps its slab entry"
+                );
 
                 if deactivate.to_scm {
                     self.unblock_scm_socket();
@@ -2840,10 +2859,10 @@ impl Server {
                 // The socket is gone: a readiness remembered while the accept
                 // gate was closed must not be replayed against this token later.
                 self.accept_ready.remove(&ListenToken(token.0));
-                if self.sessions.borrow().slab.contains(token.0) {
-                    self.sessions.borrow_mut().slab.remove(token.0);
-                    info!("removed listen token {:?}", token);
-                }
+                debug_assert!(
+                    self.sessions.borrow().slab.contains(token.0),
+                    "a deactivated listener keeps its slab entry"
+                );
 
                 if deactivate.to_scm {
                     self.unblock_scm_socket();
@@ -2885,9 +2904,17 @@ impl Server {
                 // The socket is gone: a readiness remembered while the accept
                 // gate was closed must not be replayed against this token later.
                 self.accept_ready.remove(&ListenToken(token.0));
-                if self.sessions.borrow().slab.contains(token.0) {
-                    self.sessions.borrow_mut().slab.remove(token.0);
-                    info!("removed listen token {:?}", token);
+                // Put the `ListenSession` placeholder back in place of the
+                // `UdpListenerSession` installed by ActivateListener: the token
+                // stays reserved until RemoveListener and a later activation
+                // swaps a fresh session in again.
+                {
+                    let mut sessions = self.sessions.borrow_mut();
+                    if sessions.slab.contains(token.0) {
+                        sessions.slab[token.0] = Rc::new(RefCell::new(ListenSession {
+                            protocol: Protocol::UDPListen,
+                        }));
+                    }
                 }
 
                 if deactivate.to_scm {
